@@ -372,10 +372,12 @@ PLAN["C08"] = {
         "c14_well_formed_image_is_identified": H("B'", "BuildId/SoName::read_from_module", "3 hand-built ELF64 images")}},
                {"stem": "maps_reader", "filter": "bprime_effective", "tiers": Q, "tests": {
         "bprime_effective_module_name": H("B'", "MappingInfo::get_mapping_effective_path_name_and_version", "8 paths x 4 SONAMEs x executable x offset (128)")}},
+               {"stem": "mappings", "filter": "bprime_module", "tiers": Q, "tests": {
+        "bprime_module_list_of_this_process": H("B'", "mappings::write + fill_raw_module (this process as the target)", "every module of the test process; per module 2 caller-supplied mappings (same extent, strictly containing)")}},
                {"stem": "ptrace_dumper", "filter": "bprime_entry", "tiers": Q, "tests": {
         "bprime_entry_point_mapping_is_first": H("B'", "PtraceDumper::enumerate_mappings (this process as the target)", "every file-backed derived mapping of the test process x first/last address as the entry point")}}],
     "trusted": ["that a module's debug record holds the build id an independent reader finds in the file, and merged extents of real ELF images, are not decided (C13/C14 cover aggregation and identification separately)",
-                "fill_raw_module's record layout (cv record, version info) is not under contract"],
+                "version info derived from the .so.N suffix is only exercised for totality (C02), not compared with a reference"],
     "samples": ["is_interesting == (name.is_some() && (offset == 0 || executable) && size >= 4096)"],
 }
 
